@@ -448,6 +448,107 @@ class _Lower:
         return None
 
 
+class _NamedTuples:
+    """A plain record type - `class R(collections.namedtuple('R', ['a', 'b'])): <docstring / __slots__ = ()>` or `R = namedtuple('R', 'a b')` -
+    is a tuple with names for its positions.  Where the class is certain the names are lowered to positions, so that code written with records
+    reads like the tuple code it replaced:  R(a=x, b=y) -> (x, y);  R(*e).b -> e[1];  R(*e) -> tuple(e);  v = R(...) [the only binding of v in the
+    function] ... v.b -> v[1]."""
+
+    @staticmethod
+    def _fields(call):
+        f = call.func
+        nm = f.attr if isinstance(f, ast.Attribute) else (f.id if isinstance(f, ast.Name) else None)
+        if nm != 'namedtuple' or len(call.args) != 2 or call.keywords:
+            return None
+        a = call.args[1]
+        if isinstance(a, ast.Constant) and isinstance(a.value, str):
+            out = a.value.replace(',', ' ').split()
+        elif isinstance(a, (ast.List, ast.Tuple)) and all(isinstance(x, ast.Constant) and isinstance(x.value, str) for x in a.elts):
+            out = [x.value for x in a.elts]
+        else:
+            return None
+        return out if out and all(x.isidentifier() for x in out) else None
+
+    def run(self, tree):
+        nts = {}
+        for s in tree.body:
+            if isinstance(s, ast.ClassDef) and len(s.bases) == 1 and isinstance(s.bases[0], ast.Call) and not s.keywords and not s.decorator_list:
+                fl = self._fields(s.bases[0])
+                plain = all((isinstance(b, ast.Expr) and isinstance(b.value, ast.Constant)) or isinstance(b, ast.Pass)
+                            or (isinstance(b, ast.Assign) and len(b.targets) == 1 and isinstance(b.targets[0], ast.Name) and b.targets[0].id == '__slots__'
+                                and isinstance(b.value, ast.Tuple) and not b.value.elts) for b in s.body)
+                if fl and plain:
+                    nts[s.name] = fl
+            elif isinstance(s, ast.Assign) and len(s.targets) == 1 and isinstance(s.targets[0], ast.Name) and isinstance(s.value, ast.Call):
+                fl = self._fields(s.value)
+                if fl:
+                    nts[s.targets[0].id] = fl
+        if not nts:
+            return tree
+        # a record name that is rebound anywhere is not certain
+        for n in ast.walk(tree):
+            if isinstance(n, ast.Name) and n.id in nts and isinstance(n.ctx, (ast.Store, ast.Del)) and not any(isinstance(s, ast.Assign) and s.targets[0] is n for s in tree.body):
+                nts.pop(n.id)
+        if not nts:
+            return tree
+
+        def is_ctor(e):
+            return isinstance(e, ast.Call) and isinstance(e.func, ast.Name) and e.func.id in nts
+
+        def idx(node, e, i):
+            return ast.copy_location(ast.Subscript(value=e, slice=ast.copy_location(ast.Constant(value=i), node), ctx=ast.Load()), node)
+        # locals bound once, to a record
+        for fn in [x for x in ast.walk(tree) if isinstance(x, (ast.FunctionDef, ast.AsyncFunctionDef))]:
+            stores = {}
+            for n in ast.walk(fn):
+                if isinstance(n, ast.Name) and isinstance(n.ctx, (ast.Store, ast.Del)):
+                    stores[n.id] = stores.get(n.id, 0) + 1
+            recs = {}
+            for n in ast.walk(fn):
+                if isinstance(n, ast.Assign) and len(n.targets) == 1 and isinstance(n.targets[0], ast.Name) and is_ctor(n.value) and stores.get(n.targets[0].id) == 1 \
+                        and n.targets[0].id not in {a.arg for a in fn.args.args + fn.args.kwonlyargs}:
+                    recs[n.targets[0].id] = nts[n.value.func.id]
+            if recs:
+                class V(ast.NodeTransformer):
+                    def visit_Attribute(self_, node):
+                        self_.generic_visit(node)
+                        if isinstance(node.ctx, ast.Load) and isinstance(node.value, ast.Name) and node.value.id in recs and node.attr in recs[node.value.id]:
+                            return idx(node, node.value, recs[node.value.id].index(node.attr))
+                        return node
+                V().visit(fn)
+
+        class W(ast.NodeTransformer):
+            def visit_Attribute(self_, node):
+                v = node.value
+                if isinstance(node.ctx, ast.Load) and is_ctor(v) and node.attr in nts[v.func.id]:
+                    i = nts[v.func.id].index(node.attr)
+                    if len(v.args) == 1 and isinstance(v.args[0], ast.Starred) and not v.keywords:
+                        return idx(node, self_.visit(v.args[0].value), i)
+                self_.generic_visit(node)
+                return node
+
+            def visit_Call(self_, node):
+                self_.generic_visit(node)
+                if not is_ctor(node):
+                    return node
+                fl = nts[node.func.id]
+                if len(node.args) == 1 and isinstance(node.args[0], ast.Starred) and not node.keywords:
+                    return ast.copy_location(ast.Call(func=ast.copy_location(ast.Name(id='tuple', ctx=ast.Load()), node), args=[node.args[0].value], keywords=[]), node)
+                if any(isinstance(a, ast.Starred) for a in node.args) or any(k.arg is None or k.arg not in fl for k in node.keywords):
+                    return node
+                vals = dict(zip(fl, node.args))
+                for k in node.keywords:
+                    if k.arg in vals:
+                        return node
+                    vals[k.arg] = k.value
+                if len(vals) != len(fl) or len(node.args) > len(fl):
+                    return node
+                return ast.copy_location(ast.Tuple(elts=[vals[f] for f in fl], ctx=ast.Load()), node)
+        W().visit(tree)
+        ast.fix_missing_locations(tree)
+        return tree
+
+
 class _FieldLocals:
     """`v = Cls(...); self.f = v; v.read(...)` is `self.f = Cls(...); self.f.read(...)`: a local that only names the object just stored
     into a field (the shape a table-driven decoder takes once its loop is unrolled) is replaced by the field, up to the next rebinding of
@@ -535,6 +636,8 @@ class SourceSet:
                 t = ast.parse(self.text(rel), filename=rel)
             except SyntaxError as e:
                 raise AnalysisError('cannot parse %s: %s' % (rel, e))
+            if 'namedtuple' in self.text(rel):
+                t = _NamedTuples().run(t)
             t = _Lower().run(t)
             t = _Canon().visit(t)
             t = _AliasInline().run(t)
